@@ -6,9 +6,20 @@ Driver of C18. Two case kinds (payload, space separated):
 
 * `L <src-hex>` — result: `pos,line,col` of every token the lexer emits (comments, EOF and
   error token included), joined by single spaces.
-* `E <P|R> <src-hex> <off>` — a program with a planted parse (`P`) or runtime (`R`) error whose
-  offending token starts at byte offset `off` (`eof`: the EOF token). Result: `line,col` the
-  error must carry = the fields of that token in the lexer model.
+* `E <P|R|X> <src-hex> <off> [<calloff>]` — a program with a planted parse (`P`) or runtime (`R`)
+  error, or a runtime error the program catches itself (`X`), whose offending token starts at
+  byte offset `off` (`eof`: the EOF token). Result: `line,col` of that token in the lexer model,
+  once per observable (P: Line/Pos fields, numbers in the message text; R: fields, text, node
+  line/linepos in MarshalJSON; X: `e.line`, `e.pos` of the except object) and, with `calloff`, the
+  line of the call token the error passed through (outermost stack trace entry).
+
+* `B <src-hex> <markoff>` — a break point set (by the harness, on the real debugger) at the true
+  line of a marked statement; result: `pos,line` of the node the thread is suspended on = the
+  marked token.
+
+* `U <lo> <hi>` — sweep: unicode.IsSpace / IsControl / IsNumber and utf8.DecodeRune against the
+  model's `isSpace` / `isControl` / `isNumber` / `decodeRune` for every code point of the range
+  (quick: U+0000–U+2FFF, thorough: all of U+0000–U+111FFF incl. surrogates and out-of-range).
 
 * `S <ref-hex> <var-hex> <tree>` — statement separation: `var` is the comment-free program `ref`
   with comments put into its gaps; result: the canonical tree (or parse error kind) the real
@@ -20,9 +31,12 @@ The specification (true line / column recomputed from the byte offset, `Ecal.Lex
 evaluated on every case for every token; for the EOF token (no first character) the position
 asked for is the end of the input — the code's stale position there is the known finding
 `eof-stale-position` (a trailing EOF after an error token is not constrained). Where the
-model (= the code) deviates from it the line carries `spec=<result with true positions>` and
-`kf=hash-comment-column` if the classifier holds for **every** deviating token and the line
-number is right, `kf=unexplained-position` (not a listed finding ⇒ violation) otherwise.
+model (= the code) deviates from it the line carries `spec=<result with true positions>`,
+`alt=` per token every value a tree with SOME of the known findings repaired may report (the
+check accepts Go token by token: equal to one of them), and `kf=`: `unexplained-position` (not a
+listed finding ⇒ violation) if some deviation is not classified, else `hash-comment-column` if a
+non-EOF token deviates, else `eof-stale-position`. Each token's `Pos` is recomputed from the
+bytes (`expectedPositions`), not taken from the token.
 `nt=1`: some compared token lies on a line > 1.
 -/
 namespace Ecal.Drv.C18
@@ -30,74 +44,165 @@ open Ecal.Drv Ecal.Lex Ecal.Lex.Spec
 
 def triple (p l : Nat) (c : Int) : String := s!"{p},{l},{c}"
 
-structure Verdict where
+/-! ### spec side: where tokens must start, recomputed from the bytes
+
+An independent scan: skip blanks; the bytes found there decide where the token's `Pos` must be
+(`#` → behind it, `/*` → behind it, anything else → there); the token's end is found by a byte
+scan of its own for comments and string literals and from the length of the token text for words
+(`Ecal.Props.C18.word_text_at_pos` proves that text stands at `Pos`). Comment tokens are exempt
+from "Pos is the first character": their `Pos` is the first byte of the comment TEXT (what `Val`
+holds and the printer relies on); they never reach an error or a break point. -/
+
+def skipBlanks (inp : Bytes) : Nat → Nat → Nat
+  | 0, o => o
+  | fuel+1, o =>
+    if o ≥ inp.size then o
+    else
+      let d := decodeRune inp o
+      if isSpace d.1 || isControl d.1 then skipBlanks inp fuel (o + d.2) else o
+
+/-- index after the first byte `b` at or after `o` (size if none) -/
+def afterByte (inp : Bytes) (b : Nat) : Nat → Nat → Nat
+  | 0, o => o
+  | fuel+1, o => if o ≥ inp.size then inp.size else if inp.getD o 0 = b then o + 1 else afterByte inp b fuel (o + 1)
+
+/-- index after the first `*/` at or after `o` (size if none) -/
+def afterClose (inp : Bytes) : Nat → Nat → Nat
+  | 0, o => o
+  | fuel+1, o =>
+    if o ≥ inp.size then inp.size
+    else if inp.getD o 0 = 42 && inp.getD (o+1) 0 = 47 && o + 1 < inp.size then o + 2 else afterClose inp fuel (o + 1)
+
+/-- index after the first unescaped `q` at or after `o` (size if none) -/
+def afterQuote (inp : Bytes) (q : Nat) : Nat → Nat → Bool → Nat
+  | 0, o, _ => o
+  | fuel+1, o, esc =>
+    if o ≥ inp.size then inp.size
+    else if inp.getD o 0 = q && !esc then o + 1
+    else afterQuote inp q fuel (o + 1) (!esc && inp.getD o 0 = 92)
+
+/-- (expected Pos, end of the token's source text) of the token that starts after `cur`;
+    `len` = length of the token text (used for words only) -/
+def expectedTok (inp : Bytes) (cur len : Nat) : Nat × Nat :=
+  let n := inp.size + 1
+  let s := skipBlanks inp n cur
+  let b0 := inp.getD s 0
+  let b1 := inp.getD (s+1) 0
+  if b0 = 35 then (s + 1, afterByte inp 10 n (s + 1))
+  else if b0 = 47 && b1 = 42 && s + 1 < inp.size then (s + 2, afterClose inp n (s + 2))
+  else if b0 = 34 || b0 = 39 then (s, afterQuote inp b0 n (s + 1) false)
+  else if b0 = 114 && (b1 = 34 || b1 = 39) && s + 1 < inp.size then (s, afterByte inp b1 n (s + 2))
+  else (s, s + len)
+
+/-- expected Pos of every token (EOF: the end of the input), in order; after an error token
+    nothing more is expected -/
+def expectedPositions (inp : Bytes) : List Tok → Nat → List Nat
+  | [], _ => []
+  | t :: ts, cur =>
+    if t.id = tEOF then inp.size :: expectedPositions inp ts cur
+    else
+      let e := expectedTok inp cur t.val.length
+      e.1 :: expectedPositions inp ts (if t.id = tERROR then inp.size else e.2)
+
+/-! ### judging one token -/
+
+structure TokJ where
+  /-- what the model (= the code as it is) reports -/
   model : String
+  /-- what the property demands -/
   spec : String
-  /-- a token other than EOF deviates from its true position -/
+  /-- everything a tree with some of the known findings repaired may report (model first) -/
+  alts : List String
   deviates : Bool
-  /-- … and every such deviation is the known finding hash-comment-column -/
-  explained : Bool
-  /-- the EOF token deviates from the end-of-input position -/
-  eofDeviates : Bool := false
-  /-- … and it is the known finding eof-stale-position (the line is right) -/
-  eofExplained : Bool := true
-  nontrivial : Bool
+  /-- "" | "hash-comment-column" | "eof-stale-position" | "unexplained-position" -/
+  cls : String
+  isEof : Bool
 
-def attrs (v : Verdict) : String :=
-  v.model ++ (if v.nontrivial then "\tnt=1" else "")
-    ++ (if v.deviates then
-          "\tkf=" ++ (if v.explained && v.eofExplained then "hash-comment-column" else "unexplained-position") ++ "\tspec=" ++ v.spec
-        else if v.eofDeviates then
-          "\tkf=" ++ (if v.eofExplained then "eof-stale-position" else "unexplained-position") ++ "\tspec=" ++ v.spec
-        else "")
+def fmt (withPos : Bool) (p l : Nat) (c : Int) : String :=
+  if withPos then triple p l c else s!"{l},{c}"
 
-/-- per token: (model text, spec text, deviates, explained).  The EOF token has no first
-    character; the position the property asks for is the end of the input. The code stamps it
-    with the start of the previous token (known finding eof-stale-position; its line is right).
-    After an error token the lexer has stopped and a trailing EOF is not constrained. -/
-def judge (inp : Bytes) (toks : List Tok) (t : Tok) (withPos : Bool) : String × String × Bool × Bool :=
-  let m := if withPos then triple t.pos t.line t.col else s!"{t.line},{t.col}"
-  if t.id = tEOF && toks.any (·.id = tERROR) then (m, m, false, true)
+/-- The EOF token has no first character; the position the property asks for is the end of the
+    input. The code stamps it with the start of the previous token (known finding
+    eof-stale-position; its line is right) and with the lexer's `lastnl`, which may be stale after
+    a `#` comment (hash-comment-column). After an error token the lexer has stopped and a
+    trailing EOF is not constrained. `expPos`: the independently recomputed Pos. -/
+def judge (inp : Bytes) (toks : List Tok) (t : Tok) (expPos : Nat) (withPos : Bool) : TokJ :=
+  let m := fmt withPos t.pos t.line t.col
+  if t.id = tEOF then
+    if toks.any (·.id = tERROR) then
+      let e := if withPos then "eof-after-error" else m
+      { model := e, spec := e, alts := [e], deviates := false, cls := "", isEof := true }
+    else
+      let size := inp.size
+      let tl := lineOf inp size
+      let ls : Int := lineStart inp size
+      let lastnlM : Int := (t.pos : Int) - t.col + 1        -- the lexer's lastnl when it emitted EOF
+      let s := fmt withPos size tl ((size : Int) - ls + 1)
+      let hashOnly := fmt withPos t.pos t.line ((t.pos : Int) - ls + 1)
+      let eofOnly := fmt withPos size t.line ((size : Int) - lastnlM + 1)
+      let dev := m != s
+      let okLine := t.line = tl && (lastnlM = ls || afterHashComment inp toks size)
+      { model := m, spec := s, alts := [m, hashOnly, eofOnly, s].eraseDups, deviates := dev,
+        cls := if !dev then "" else if okLine then "eof-stale-position" else "unexplained-position", isEof := true }
   else
-    let off := if t.id = tEOF then inp.size else t.pos
-    let tl := lineOf inp off
-    let tc := colOf inp off
-    let s := if withPos then triple off tl tc else s!"{tl},{tc}"
-    let dev := t.pos != off || t.line != tl || t.col != tc
-    (m, s, dev, t.line = tl && (t.id = tEOF || afterHashComment inp toks t.pos))
+    let tl := lineOf inp expPos
+    let tc := colOf inp expPos
+    let s := fmt withPos expPos tl tc
+    let dev := m != s
+    let expl := t.pos = expPos && t.line = tl && afterHashComment inp toks t.pos
+    { model := m, spec := s, alts := [m, s].eraseDups, deviates := dev,
+      cls := if !dev then "" else if expl then "hash-comment-column" else "unexplained-position", isEof := false }
+
+def render (js : List TokJ) (nontrivial : Bool) : String :=
+  let model := " ".intercalate (js.map (·.model))
+  let dev := js.filter (·.deviates)
+  let kf :=
+    if dev.any (·.cls = "unexplained-position") then "unexplained-position"
+    else if dev.any (·.cls = "hash-comment-column") then "hash-comment-column"
+    else "eof-stale-position"
+  model ++ (if nontrivial then "\tnt=1" else "")
+    ++ (if dev.isEmpty then "" else "\tkf=" ++ kf ++ "\tspec=" ++ " ".intercalate (js.map (·.spec)))
+    ++ (if js.all (·.alts.length ≤ 1) then ""
+        else "\talt=" ++ " ".intercalate (js.map fun j => "|".intercalate j.alts))
 
 def lexCase (src : List Nat) : String :=
   let inp := src.toArray
   let toks := (lex src).toList
-  let js := toks.map fun t => (decide (t.id = tEOF), judge inp toks t true)
-  let v : Verdict := {
-    model := " ".intercalate (js.map (·.2.1)),
-    spec := " ".intercalate (js.map (·.2.2.1)),
-    deviates := js.any fun j => !j.1 && j.2.2.2.1,
-    explained := js.all fun j => j.1 || !j.2.2.2.1 || j.2.2.2.2,
-    eofDeviates := js.any fun j => j.1 && j.2.2.2.1,
-    eofExplained := js.all fun j => !j.1 || !j.2.2.2.1 || j.2.2.2.2,
-    nontrivial := toks.any fun t => t.id != tEOF && t.line > 1 }
-  if toks.isEmpty then "-" else attrs v
+  let exps := expectedPositions inp toks 0
+  let js := (toks.zip exps).map fun (t, e) => judge inp toks t e true
+  if toks.isEmpty then "-" else render js (toks.any fun t => t.id != tEOF && t.line > 1)
 
-def errCase (src : List Nat) (off : String) : String :=
+/-- `E` cases: `n` = how many observables carry the offending token's (line, column): fields,
+    message text, JSON / except object; `calloff`: offset of the call the error passes through —
+    the outermost stack trace entry must name that token's line. -/
+def errCase (kind : String) (src : List Nat) (off : String) (calloff : Option String) : String :=
   let inp := src.toArray
   let toks := (lex src).toList
+  let real (t : Tok) : Bool := t.id != tEOF && t.id != tPRECOMMENT && t.id != tPOSTCOMMENT
   let tok? : Option Tok :=
     if off = "eof" then (match toks.getLast? with | some t => if t.id = tEOF then some t else none | none => none)
     else match off.toNat? with
-      | some o => toks.find? fun t => t.pos = o && t.id != tEOF && t.id != tPRECOMMENT && t.id != tPOSTCOMMENT
+      | some o => toks.find? fun t => t.pos = o && real t
       | none => none
+  let n := if kind = "P" then 2 else if kind = "R" then 3 else 1
   match tok? with
   | none => "no-token-at-offset"
   | some t =>
-    let j := judge inp toks t false
-    if t.id = tEOF then
-      attrs { model := j.1, spec := j.2.1, deviates := false, explained := true,
-              eofDeviates := j.2.2.1, eofExplained := j.2.2.2, nontrivial := t.line > 1 }
-    else
-      attrs { model := j.1, spec := j.2.1, deviates := j.2.2.1, explained := j.2.2.2,
-              nontrivial := t.line > 1 }
+    let j := judge inp toks t t.pos false
+    let call : Option (List TokJ) := match calloff with
+      | none => some []
+      | some c => match c.toNat? with
+        | none => none
+        | some o => match toks.find? fun t => t.pos = o && real t with
+          | none => none
+          | some ct =>
+            -- the line is always true (`token_positions_true_partial`); no alternative
+            let l := s!"{ct.line}"
+            if ct.line = lineOf inp o then some [{ model := l, spec := l, alts := [l], deviates := false, cls := "", isEof := false }]
+            else some [{ model := l, spec := s!"{lineOf inp o}", alts := [l], deviates := true, cls := "unexplained-position", isEof := false }]
+    match call with
+    | none => "no-call-token-at-offset"
+    | some cj => render (List.replicate n j ++ cj) (t.line > 1)
 
 /-- tokens the parser sees (comments are attached to nodes as meta data, never parsed) -/
 def parserToks (src : List Nat) : List Tok :=
@@ -124,14 +229,53 @@ def sepCase (ref var : List Nat) (tree : String) : String :=
     let comments := (lex var).toList.any fun t => t.id = tPRECOMMENT || t.id = tPOSTCOMMENT
     tree ++ (if comments && (sameLineRel tv).any (!·) then "\tnt=1" else "")
 
+/-- `B` cases: the thread must be suspended on the node of the marked token: `pos,line` of the
+    model token that starts at the marked offset (the break point was set at the TRUE line of that
+    offset by the harness; the line clause is what makes the two meet). -/
+def breakCase (src : List Nat) (off : Nat) : String :=
+  let inp := src.toArray
+  let toks := (lex src).toList
+  match toks.find? fun t => t.pos = off && t.id != tEOF && t.id != tPRECOMMENT && t.id != tPOSTCOMMENT with
+  | none => "no-token-at-offset"
+  | some t =>
+    s!"{t.pos},{t.line}" ++ (if t.line > 1 then "\tnt=1" else "")
+      ++ (if t.line = lineOf inp off then "" else s!"\tkf=unexplained-position\tspec={off},{lineOf inp off}")
+
+/-- the bare UTF-8 bit layout of `cp` (also for surrogates and values above U+10FFFF) -/
+def rawUTF8 (cp : Nat) : List Nat :=
+  if cp < 0x80 then [cp]
+  else if cp < 0x800 then [0xC0 + cp / 64, 0x80 + cp % 64]
+  else if cp < 0x10000 then [0xE0 + cp / 4096, 0x80 + cp / 64 % 64, 0x80 + cp % 64]
+  else [0xF0 + cp / 262144, 0x80 + cp / 4096 % 64, 0x80 + cp / 64 % 64, 0x80 + cp % 64]
+
+/-- `U` cases: the model's isSpace / isControl / isNumber / decodeRune on every code point of the
+    range (two hex digits each, see c18Sweep in the harness) -/
+def sweepCase (lo hi : Nat) : String :=
+  String.ofList ((List.range (hi - lo)).flatMap fun i =>
+    let cp := lo + i
+    let b := rawUTF8 cp
+    let d := decodeRune b.toArray 0
+    let bits := (if isSpace cp then 1 else 0) + (if isControl cp then 2 else 0) + (if isNumber cp then 4 else 0)
+      + (if d.1 = cp && d.2 = b.length then 8 else 0)
+    [hexDigit bits, hexDigit d.2])
+
 def runCase (payload : String) : String :=
   match payload.splitOn " " with
   | ["L", h] => match hexDecode h with
     | some src => lexCase src
     | none => "bad-payload"
-  | ["E", _k, h, off] => match hexDecode h with
-    | some src => errCase src off
+  | ["E", k, h, off] => match hexDecode h with
+    | some src => errCase k src off none
     | none => "bad-payload"
+  | ["E", k, h, off, calloff] => match hexDecode h with
+    | some src => errCase k src off (some calloff)
+    | none => "bad-payload"
+  | ["U", lo, hi] => match lo.toNat?, hi.toNat? with
+    | some lo, some hi => sweepCase lo hi
+    | _, _ => "bad-payload"
+  | ["B", h, off] => match hexDecode h, off.toNat? with
+    | some src, some o => breakCase src o
+    | _, _ => "bad-payload"
   | ["S", r, v, tree] => match hexDecode r, hexDecode v with
     | some r, some v => sepCase r v tree
     | _, _ => "bad-payload"
